@@ -66,6 +66,8 @@ class Run:
         """Run one correspondence stream; returns (reqs, impls, models)."""
         outdir = os.path.join(self.work, name)
         os.makedirs(outdir, exist_ok=True)
+        if self.tier == "quick":
+            timeout = min(timeout, 400)     # a quick stream takes seconds; a hang is reported, not waited for
         if reqfile is not None:
             rc, out = harness.replay(name, reqfile, outdir, timeout=timeout)
             base = name
@@ -172,6 +174,8 @@ class Run:
                 found_any = True
                 self.add_violation(name, r, im, mo, verdict, True, harness, judge)
             shown += 1
+        if not found_any and all(b < 0 for b in bad) and any(v.get("stream") == name for v in self.violations):
+            return      # the stream was cut short by a crash/hang that is already reported with its last request
         if not found_any:
             # tie broken but no disagreeing case violates the property itself: search further
             w = judge.search(self, harness, name)
